@@ -245,6 +245,24 @@ class C18(Prop):
                 names = sorted(set(lang.variables(p) + lang.variables(q))) or ['x']
             case.update({'p': lang.to_jsonable(p), 'q': lang.to_jsonable(q), 'booleans': True,
                          'data': dict((k, [float(rng.random() < 0.5) for _ in range(n)]) for k in names)})
+        if kind in ('dt_offline', 'dt_online') and rng.random() < 0.05 and law in (
+                'dual-ev-alw', 'dual-once-hist', 'ev-ev', 'once-once'):
+            # the windows of the law itself are wide (13..200 samples) and the trace is longer than they are, over a
+            # tiny value alphabet: the extreme value of a window occurs several times and slides out while a later
+            # copy is still inside (what separates a correct long-window algorithm from an almost correct one; the
+            # two sides of a law use different operators - once vs historically, nested vs flat)
+            w1 = lang.wide_width(rng)
+            i1 = (rng.choice([0, 0, 1, 5]), 0)
+            i1 = (i1[0], i1[0] + w1)
+            if law in ('ev-ev', 'once-once'):
+                i2 = rng.choice([(0, rng.randint(1, 12)), (rng.randint(0, 3), rng.randint(3, 9)), (0, lang.wide_width(rng) // 2)])
+            c2 = lang.GenCfg(vars=names[:1], max_depth=1, timed=False, unbounded_future=False, unbounded_past=False,
+                             prevnext=False, since_until=False, future=(kind == 'dt_offline'))
+            p = lang.gen_phi(rng, c2, rng.choice([0, 0, 1]))
+            names = sorted(set(lang.variables(p))) or ['x']
+            n = w1 + i1[0] + rng.randint(10, 80)
+            case.update({'p': lang.to_jsonable(p), 'i1': list(i1), 'i2': list(i2), 'wide_law': True,
+                         'data': dict((k, lang.gen_values(rng, n, rng.choice(['tiny', 'tiny', 'steps']))) for k in names)})
         if kind == 'dt_pastified':
             # bounded-future laws through pastify() + update(), under a sampling period that need not be 1 s
             case['period'] = rng.choice([[1, 's'], [500, 'ms'], [2, 's'], [250, 'ms'], [4, 's']])
@@ -318,6 +336,8 @@ class C18(Prop):
         self._two_scales = bool(case.get('two_scales'))
         if self._two_scales:
             v.info['class:two-time-scales'] = 1
+        if case.get('wide_law'):
+            v.info['class:wide-law-windows-on-long-traces'] = 1
         if self._booleans:
             v.info['class:boolean-valued-signals'] = 1
         if self._period:
